@@ -118,6 +118,7 @@ func (server *Server) Start() {
 							evictList.Remove(v)
 							delete(cache, k)
 							totalSize -= resp.size
+							verifEvent("purge", k, totalSize, len(cache), evictList.Len(), inflight, "")
 						}
 					}
 					server.metrics.updateCacheStats(totalSize, len(cache))
@@ -128,11 +129,14 @@ func (server *Server) Start() {
 				if isRoot {
 					kind = "root"
 				}
+				verifOutcome := "miss"
 				if val, ok := cache[key]; ok {
+					verifOutcome = "hit"
 					evictList.MoveToFront(val)
 					req.value <- val.Value.(*response).value
 					server.metrics.cacheRequest(key.name, kind, "hit")
 				} else if _, ok := inflight[key]; ok {
+					verifOutcome = "join"
 					inflight[key] = append(inflight[key], req)
 					server.metrics.cacheRequest(key.name, kind, "hit") // treat inflight as a hit since it doesn't make a new server request
 				} else {
@@ -226,6 +230,7 @@ func (server *Server) Start() {
 						server.logger.Printf("fetched %s %d-%d", key.name, key.offset, length)
 					}()
 				}
+				verifEvent("req", key, totalSize, len(cache), evictList.Len(), inflight, verifOutcome+" "+req.purgeEtag)
 			case resp := <-resps:
 				key := resp.key
 				// check if there are any requests waiting on the key
@@ -252,9 +257,15 @@ func (server *Server) Start() {
 						kv := ent.Value.(*response)
 						delete(cache, kv.key)
 						totalSize -= kv.size
+						verifEvent("evict", kv.key, totalSize, len(cache), evictList.Len(), inflight, "")
 					}
 					server.metrics.updateCacheStats(totalSize, len(cache))
 				}
+				verifRespDetail := "fail"
+				if resp.ok {
+					verifRespDetail = "ok"
+				}
+				verifEvent("resp", key, totalSize, len(cache), evictList.Len(), inflight, verifRespDetail+" "+strconv.Itoa(resp.size)+" "+resp.value.etag)
 			}
 		}
 	}()
